@@ -39,7 +39,7 @@ claim("C06", "histsim", "exploration",
       "DESIGN §3 C06")
 claim("C07", "concsim", "exploration",
       SIM + "plan-driven baton scheduler over an AST-instrumented copy of the working tree (preemption possible before every statement; lock acquisition simulated), burst preemptions + re-entrant operator calls at writer/handler seams, history checked for linearizability (porcupine) against the sequential real code; -race stress companion for the data-race clause",
-      "Each run executes 2..5 tasks (requests chosen to discriminate the states in play; Reconfigure/SetDebug/Config/Reconfigure(Config())/rejected Reconfigure) under a seeded schedule with 0..4 burst preemptions placed uniformly over the measured schedule points of a victim operation; the recorded invoke/return history must be linearizable w.r.t. the same code run sequentially; deadlock and panics are violations. A quarter of the runs belong to enumerating sweep blocks: 192 runs share one small scenario and run i preempts the victim operation at its i-th schedule point, so for the sampled scenarios "the other party acting at every point of the operation" is enumerated completely. Scenarios and all other schedules are sampled: exploration. The data-race clause is decided by a separate free-running -race stress, which is observation of real executions and is labelled as such.",
+      "Each run executes 2..5 tasks (requests chosen to discriminate the states in play; Reconfigure/SetDebug/Config/Reconfigure(Config())/rejected Reconfigure) under a seeded schedule with 0..4 burst preemptions placed uniformly over the measured schedule points of a victim operation; the recorded invoke/return history must be linearizable w.r.t. the same code run sequentially; deadlock and panics are violations. A quarter of the runs belong to enumerating sweep blocks: 192 runs share one small scenario and run i preempts the victim operation at its i-th schedule point, so for the sampled scenarios the other party acting at every point of the victim operation is enumerated completely. Scenarios and all other schedules are sampled: exploration. The data-race clause is decided by a separate free-running -race stress, which is observation of real executions and is labelled as such.",
       "Trusted: the instrumenter (syntactic; the repository's tests are run on the instrumented copy with hooks off on every check), porcupine v1.3.0, Go's race detector. Assumes the library starts no goroutines. Histories are short (<= ~25 operations).",
       "DESIGN §3 C07")
 claim("C08", "histsim", "exploration",
